@@ -1,4 +1,8 @@
-use std::{ops::{Index, IndexMut}, sync::{Arc, RwLock}};
+use std::{ops::{Index, IndexMut}, sync::Arc};
+#[cfg(not(feature = "verif_hooks"))]
+use std::sync::RwLock;
+#[cfg(feature = "verif_hooks")]
+use crate::verif_hooks::RwLock;
 
 use crate::{
     Plaintext, 
@@ -444,11 +448,7 @@ impl KeyGenerator {
             self.secret_key.as_plaintext_mut().set_coeff_count(coeff_count * coeff_modulus_size);
         }
 
-        #[cfg(feature = "verif_hooks")]
-        let _vh_init = crate::verif_hooks::lock_enter(&self.secret_key_array, crate::verif_hooks::LockKind::Write, "keygen.init.write");
         let mut secret_key_array = self.secret_key_array.write().unwrap();
-        #[cfg(feature = "verif_hooks")]
-        _vh_init.acquired();
         secret_key_array.resize(coeff_count * coeff_modulus_size, 0);
         secret_key_array.copy_from_slice(self.secret_key.data());
         self.sk_generated = true;
@@ -497,7 +497,7 @@ impl KeyGenerator {
     /// Copy of the cached secret-key powers, or `None` while a writer holds the lock.
     #[cfg(feature = "verif_hooks")]
     pub fn verif_cache_snapshot(&self) -> Option<Vec<u64>> {
-        self.secret_key_array.try_read().ok().map(|g| g.clone())
+        self.secret_key_array.verif_peek()
     }
 
     fn compute_secret_key_array(&self, max_power: usize) {
@@ -508,11 +508,7 @@ impl KeyGenerator {
         let coeff_count = parms.poly_modulus_degree();
 
         // Aquire read lock
-        #[cfg(feature = "verif_hooks")]
-        let _vh_read = crate::verif_hooks::lock_enter(&self.secret_key_array, crate::verif_hooks::LockKind::Read, "keygen.grow.read");
         let read_lock = self.secret_key_array.read().unwrap();
-        #[cfg(feature = "verif_hooks")]
-        _vh_read.acquired();
         assert!(read_lock.len() % (coeff_count * coeff_modulus_size) == 0);
         let old_size = read_lock.len() / (coeff_count * coeff_modulus_size);
         let new_size = old_size.max(max_power);
@@ -529,8 +525,6 @@ impl KeyGenerator {
         secret_key_array[..old_size * poly_size].copy_from_slice(&read_lock[..old_size * poly_size]);
         // Drop lock
         drop(read_lock);
-        #[cfg(feature = "verif_hooks")]
-        drop(_vh_read);
         
         // Since all of the key powers in secret_key_array_ are already NTT transformed, to get the next one we simply
         // need to compute a dyadic product of the last one with the first one [which is equal to NTT(secret_key_)].
@@ -547,11 +541,7 @@ impl KeyGenerator {
         }
 
         // Aquire write lock
-        #[cfg(feature = "verif_hooks")]
-        let _vh_write = crate::verif_hooks::lock_enter(&self.secret_key_array, crate::verif_hooks::LockKind::Write, "keygen.grow.write");
         let mut write_lock = self.secret_key_array.write().unwrap();
-        #[cfg(feature = "verif_hooks")]
-        _vh_write.acquired();
 
         // Do we still need to update size?
         assert!(secret_key_array.len() % (coeff_count * coeff_modulus_size) == 0);
@@ -634,11 +624,7 @@ impl KeyGenerator {
         // Assume the secret key is already transformed into NTT form.
         let d = coeff_count * coeff_modulus_size;
         // Acquire read lock
-        #[cfg(feature = "verif_hooks")]
-        let _vh_use = crate::verif_hooks::lock_enter(&self.secret_key_array, crate::verif_hooks::LockKind::Read, "keygen.use.read");
         let read_lock = self.secret_key_array.read().unwrap();
-        #[cfg(feature = "verif_hooks")]
-        _vh_use.acquired();
         self.generate_kswitch_keys(&read_lock[d..], count, &mut relin_keys.keys, save_seed);
 
         // Set the parms_id
